@@ -122,9 +122,21 @@ def translate():
     weight, hi_name, lo_name = int(mm.group(1)), mm.group(2), mm.group(3)
     if {hi_name, lo_name} != {"hi", "lo"}:
         raise ShapeError("memory_accessor: ram16 operands")
-    if "let len = if self.word { 2 } else { 1 }; let bytes = self.memory_accessor.lock().unwrap().read(a as u16, len);" not in ma or \
-            "bytes.first().map(|b| *b as i64)" not in ma:
-        raise ShapeError("memory_accessor: read changed")
+    mr = re.search(r"let val = address\.and_then\(\|a\| \{ let len = if self\.word \{ (\d+) \} else \{ (\d+) \}; "
+                   r"let bytes = self\.memory_accessor\.lock\(\)\.unwrap\(\)\.read\(a as u(\d+), len\); if self\.word \{", ma)
+    if not mr or "bytes.first().map(|b| *b as i64)" not in ma:
+        raise ShapeError("memory_accessor: the read of ram()/ram16() changed (length, address cast or an added guard)")
+    word_len, byte_len, addr_bits = int(mr.group(1)), int(mr.group(2)), int(mr.group(3))
+    # the accessor of the test runner: which bytes a read returns
+    rd = re.search(r"impl MemoryAccessor for TestRunnerMemoryAccessor \{ fn read\(&mut self, address: u16, len: usize\) -> Vec<u8> \{ "
+                   r"let ram = self\.ram\.read\(\)\.unwrap\(\); let start = address as usize; let end = \(start \+ len\)\.min\(ram\.ram\.len\(\)\); "
+                   r"ram\.ram\[start\.\.end\]\.to_vec\(\) \}", flat_tr)
+    if not rd:
+        raise ShapeError("TestRunnerMemoryAccessor::read has an unrecognised shape")
+    sz = re.search(r"fn new\(\) -> Self \{ Self \{ ram: vec!\[0; (\d+)\], \} \}", flat_tr)
+    if not sz:
+        raise ShapeError("BasicRam::new has an unrecognised shape")
+    ram_size = int(sz.group(1))
     names = re.findall(r'ctx\.register_fn\( "(\w+)", RamFn \{ memory_accessor(?:: memory_accessor\.clone\(\))?, word: (true|false), \}, \);', ma)
     if sorted(names) != [("ram", "false"), ("ram16", "true")]:
         raise ShapeError("memory_accessor: registered functions changed: %s" % names)
@@ -160,6 +172,11 @@ def translate():
            "Definition jsr_opcode : Z := %d." % jsr_op,
            "Definition rts_opcode : Z := %d." % rts_op,
            "Definition ram16_combine (lo hi : Z) : Z := %d * %s + %s." % (weight, hi_name, lo_name),
+           "(* RamFn::apply / TestRunnerMemoryAccessor::read / BasicRam::new: lengths, address cast, size of the array *)",
+           "Definition ram_word_len : Z := %d." % word_len,
+           "Definition ram_byte_len : Z := %d." % byte_len,
+           "Definition ram_address_space : Z := %d." % (2 ** addr_bits),
+           "Definition ram_size : Z := %d." % ram_size,
            "Definition fn_ram : list N := %s." % text("ram"),
            "Definition fn_ram16 : list N := %s." % text("ram16"),
            "Definition exit_code_failed : Z := %d." % code_failed,
